@@ -18,15 +18,19 @@ package main
 //   with the configured header (otherwise the probe would be vacuous -> inconclusive).
 
 import (
+	"bufio"
 	"encoding/pem"
 	"fmt"
 	"html"
+	"io"
+	"net"
 	"net/http"
 	"net/url"
 	"regexp"
 	"sort"
 	"strings"
 	"testing"
+	"time"
 
 	"github.com/oauth2-proxy/oauth2-proxy/v7/pkg/util"
 )
@@ -74,6 +78,7 @@ type c16Cfg struct {
 	Wire   bool     // use the wire driver (peer is loopback)
 	TLS    bool     // needs certificate files
 	NoAuth bool     // skip authenticated endpoints
+	HTTP10 bool     // wire driver, every request hand-written as HTTP/1.0 WITHOUT a Host header (req.Host is empty in the handler)
 	Lenient bool    // the Host matches none of the cookie domains: a browser would refuse the cookies, the harness presents them anyway (name=value from Set-Cookie)
 	OverTLS bool    // every request (login, base and with-headers) goes over the TLS wire driver: the handler sees req.TLS != nil
 	HTTPS  bool     // the harness browser presents Secure cookies (instance itself is driven over plain HTTP)
@@ -98,6 +103,9 @@ func c16Configs(w *vfWorld, run *vfRun) []c16Cfg {
 		// the same option, but the client speaks TLS to the proxy (as on --https-address): already-secure requests must be
 		// served, with or without forwarding headers; all endpoint classes incl. the authenticated ones
 		{Name: "force-https+tls-listener", Host: "www.example.org", TLS: true, OverTLS: true, HTTPS: true, Flags: append(append([]string{"--force-https=true", "--https-address=127.0.0.1:0", "--trusted-ip=10.0.0.0/8", "--skip-auth-route=^/open/", "--api-route=^/api/"}, wl...), cd[1:]...)},
+		// an HTTP/1.0 client need not send Host: the proxy then has no request host at all; whatever it puts in its place must
+		// not come from a forwarding header (reverse-proxy off). No host in --redirect-url (default).
+		{Name: "wire+http10-no-host", Host: "", Wire: true, HTTP10: true, Lenient: true, Flags: append([]string{"--skip-auth-route=^/open/", "--api-route=^/api/"}, wl...)},
 		{Name: "force-https", Host: "proxy.test:4180", TLS: true, NoAuth: true, Flags: append([]string{"--force-https=true", "--https-address=127.0.0.1:0"}, wl...)},
 	}
 	return cfgs
@@ -316,12 +324,51 @@ type c16Exec struct {
 
 func (x *c16Exec) send(r *vfReq) *vfResp {
 	switch {
+	case x.Cfg.HTTP10:
+		return c16WireHTTP10(x.P, r)
 	case x.Cfg.OverTLS:
 		return x.P.WireTLS(r)
 	case x.Cfg.Wire:
 		return x.P.Wire(r)
 	}
 	return x.P.Do(r)
+}
+
+// c16WireHTTP10 writes the request by hand as HTTP/1.0 without a Host header (origin-form target) over a fresh connection
+// to the instance's plain wire server and parses one response.
+func c16WireHTTP10(p *vfProxy, r *vfReq) *vfResp {
+	var b strings.Builder
+	m := r.Method
+	if m == "" {
+		m = "GET"
+	}
+	fmt.Fprintf(&b, "%s %s HTTP/1.0\r\n", m, r.Target)
+	for _, h := range r.Headers {
+		if !strings.EqualFold(h[0], "Host") {
+			fmt.Fprintf(&b, "%s: %s\r\n", h[0], h[1])
+		}
+	}
+	if len(r.Body) > 0 || m == "POST" {
+		fmt.Fprintf(&b, "Content-Length: %d\r\n", len(r.Body))
+	}
+	b.WriteString("\r\n")
+	b.Write(r.Body)
+	c, err := net.DialTimeout("tcp", strings.TrimPrefix(p.Server().URL, "http://"), 5*time.Second)
+	if err != nil {
+		return &vfResp{Err: "dial: " + err.Error(), Header: http.Header{}}
+	}
+	defer c.Close()
+	_ = c.SetDeadline(time.Now().Add(60 * time.Second))
+	if _, err := c.Write([]byte(b.String())); err != nil {
+		return &vfResp{Err: "write: " + err.Error(), Header: http.Header{}}
+	}
+	res, err := http.ReadResponse(bufio.NewReader(c), &http.Request{Method: m})
+	if err != nil {
+		return &vfResp{Err: "read: " + err.Error(), Header: http.Header{}}
+	}
+	defer res.Body.Close()
+	body, _ := io.ReadAll(res.Body)
+	return &vfResp{Code: res.StatusCode, Header: res.Header, Body: body}
 }
 
 // startLoginTLS: GET /oauth2/start over TLS (no forwarding headers), code from the IdP; returns the browser (CSRF cookie
@@ -477,8 +524,8 @@ func c16Pick(f map[string]string, keys []string) map[string]string {
 func TestVerif_C16(t *testing.T) {
 	run := vfNewRun(t, "C16", "exploration")
 	run.SetRule("reverse-proxy off: 27 base requests (protected, skip-auth path, api route, preflight, auth-only, start, sign_in GET/POST, sign_out, callback invalid/error/valid, static, userinfo, ping, robots; anonymous and with session) " +
-		"x all 2^6 subsets of {X-Forwarded-Host,-Proto,-Uri,-For, X-Real-IP, one other client-IP header} x value sets (hosts on/off the whitelist, addresses, URIs; plus 15 degenerate values — only separators, empty, white space, very long, non-ASCII, garbage — per single header and all together on a thinner slice) x 12 configurations (several cookie domains with a Host outside all of them (IP literal / internal name), trusted IPs, skip-auth/api routes, whitelist + cookie domains, relative/absolute redirect-url, cookie-secure, skip-provider-button, wire driver, force-https over plain HTTP, force-https with every request over a real TLS listener) x peers (untrusted, trusted, '@' = unix-socket listener, 'unix', v6 loopback); " +
-		"reverse-proxy on: 5 configured real-client-IP headers x value of that header x subsets of all other forwarding headers. cell = (config, endpoint, header subset, value set) / (rp-on, configured header, its value class, endpoint)")
+		"x all 2^6 subsets of {X-Forwarded-Host,-Proto,-Uri,-For, X-Real-IP, one other client-IP header} x value sets (hosts on/off the whitelist, addresses, URIs; plus 15 degenerate values — only separators, empty, white space, very long, non-ASCII, garbage — per single header and all together on a thinner slice) x 13 configurations (wire driver with hand-written HTTP/1.0 requests WITHOUT Host header, several cookie domains with a Host outside all of them (IP literal / internal name), trusted IPs, skip-auth/api routes, whitelist + cookie domains, relative/absolute redirect-url, cookie-secure, skip-provider-button, wire driver, force-https over plain HTTP, force-https with every request over a real TLS listener) x peers (untrusted, trusted, '@' = unix-socket listener, 'unix', v6 loopback); " +
+		"reverse-proxy on: 5 configured real-client-IP headers x value of that header x subsets of all other forwarding headers, and 14 sibling client-address headers that cannot be configured (CF-Connecting-IPv6, True-Client-IP, Forwarded, ...) alone and together. cell = (config, endpoint, header subset, value set) / (rp-on, configured header, its value class, endpoint)")
 	run.Assume("forwarding headers received by the upstream are excluded from the comparison (legitimately passed through; the proxy appends the peer to X-Forwarded-For)",
 		"random parts are masked: nonce, code_challenge, the random half of state, cookie values, href of redirect bodies",
 		"--cookie-secure instance is driven over plain HTTP by a harness that presents the Secure cookies anyway")
@@ -598,8 +645,11 @@ func TestVerif_C16(t *testing.T) {
 			if j.peer == "@" {
 				run.Count("pairs_with_unix_socket_peer", 1)
 			}
-			if cfg.Lenient {
+			if cfg.Lenient && !cfg.HTTP10 {
 				run.Count("pairs_with_host_outside_cookie_domains", 1)
+			}
+			if cfg.HTTP10 {
+				run.Count("pairs_http10_without_host", 1)
 			}
 			run.Eval(cell)
 			run.Count("pairs", 1)
@@ -635,6 +685,9 @@ func TestVerif_C16(t *testing.T) {
 			}
 			if cfg.OverTLS {
 				driver = "wire-tls"
+			}
+			if cfg.HTTP10 {
+				driver = "wire, hand-written HTTP/1.0 request without Host header"
 			}
 			sig := c16Sig(d[0])
 			note := ""
@@ -694,6 +747,10 @@ func TestVerif_C16(t *testing.T) {
 		fmt.Printf("INCONCLUSIVE property=C16 reason=too few pairs over the TLS listener (%d served of %d)\n", run.Counter("pairs_over_tls_served_not_redirected"), run.Counter("pairs_over_tls"))
 		t.Fail()
 	}
+	if run.Counter("pairs_http10_without_host") < 1000 || run.Counter("rp_on_sibling_pairs") < int64(run.Env.Pick(2000, 4000)) {
+		fmt.Printf("INCONCLUSIVE property=C16 reason=too few HTTP/1.0 pairs without Host (%d) or reverse-proxy-on pairs with sibling client-address headers (%d)\n", run.Counter("pairs_http10_without_host"), run.Counter("rp_on_sibling_pairs"))
+		t.Fail()
+	}
 	if run.Counter("pairs_with_degenerate_value") < int64(run.Env.Pick(3000, 20000)) {
 		fmt.Printf("INCONCLUSIVE property=C16 reason=too few pairs with degenerate header values (%d)\n", run.Counter("pairs_with_degenerate_value"))
 		t.Fail()
@@ -709,6 +766,10 @@ func TestVerif_C16(t *testing.T) {
 	}
 	run.Finish(int64(run.Env.Pick(6000, 25000)), run.Env.Pick(3000, 12000))
 }
+
+// client-address headers other products use, none of which oauth2-proxy can be configured to read
+var c16SiblingIPHeaders = []string{"CF-Connecting-IPv6", "True-Client-IP", "X-Client-IP", "X-Cluster-Client-IP", "Forwarded", "X-Original-Forwarded-For", "Fastly-Client-IP",
+	"X-Forwarded", "Forwarded-For", "X-Real-IPv6", "X-Envoy-Internal-Address", "X-ProxyUser-IPv6", "X-Appengine-User-IP", "X-Azure-ClientIP"}
 
 type c16RPInst struct {
 	hdr string
@@ -792,6 +853,45 @@ func c16ReverseProxyOn(run *vfRun, w *vfWorld, insts []c16RPInst) {
 			}
 		}
 		others = append(others, c16FwdNames[:3]...)
+		// look-alike / sibling client-address headers that are NOT among the configurable ones: alone and all together, with
+		// trusted and untrusted values, while the configured header stays fixed
+		sibVals := append(append([]string{}, otherVals...), "198.51.100.9", "::ffff:10.1.2.3")
+		for si := 0; si <= len(c16SiblingIPHeaders); si++ {
+			for vi, sv := range sibVals {
+				if !run.Env.Thorough() && si < len(c16SiblingIPHeaders) && (si+vi+ji+int(run.Env.Seed))%2 != 0 {
+					continue
+				}
+				hdr := append([][2]string{}, ownHdr...)
+				add := func(h string) {
+					v := sv
+					if h == "Forwarded" {
+						v = "for=\"" + sv + "\";proto=https;host=trusted.internal"
+					}
+					if (si+vi)%2 == 0 {
+						hdr = append([][2]string{{h, v}}, hdr...)
+					} else {
+						hdr = append(hdr, [2]string{h, v})
+					}
+				}
+				label := "all-siblings"
+				if si < len(c16SiblingIPHeaders) {
+					add(c16SiblingIPHeaders[si])
+					label = c16SiblingIPHeaders[si]
+				} else {
+					for _, h := range c16SiblingIPHeaders {
+						add(h)
+					}
+				}
+				got, req, code := outcome(j.in.p, eps[j.ep].Target, peers[j.peer], fmt.Sprintf("%s-s%d-v%d", id, si, vi), hdr)
+				run.Eval(fmt.Sprintf("rp-on|configured=%s|own=%s|%s|peer=%d|sibling=%s|v%d", j.in.hdr, own[j.own].Class, eps[j.ep].Name, j.peer, label, vi))
+				run.Count("rp_on_pairs", 1)
+				run.Count("rp_on_sibling_pairs", 1)
+				if got != base {
+					run.Violation("c16:unconfigured-header-moves-trusted-ip-decision", fmt.Sprintf("reverse-proxy on, --real-client-ip-header=%s (%s: %q), %s: adding %v changes the trusted-IP outcome %v -> %v", j.in.hdr, own[j.own].Class, own[j.own].V, eps[j.ep].Name, hdr, base, got),
+						map[string]interface{}{"flags": j.in.p.Flags, "base_request": baseReq, "base_status": baseCode, "base_exempt": base, "request": req, "raw_request": string(req.Bytes()), "status": code, "exempt": got})
+				}
+			}
+		}
 		step := run.Env.Pick(5, 1)
 		for mask := 1; mask < 128; mask++ {
 			if mask&(mask-1) != 0 && (mask+ji+int(run.Env.Seed))%step != 0 { // singles always, the rest sampled in quick (by seed)
